@@ -63,7 +63,7 @@ func irrelevantCap(r *rand.Rand, with string) CapSpec {
 	return CapSpec{Can: pick(r, []string{"debug/echo", "other/thing", "store/remove", "stor/*", "store"}), With: with, Nb: Cav{}}
 }
 
-var defectKinds = []string{"forged", "tamper-aud", "tamper-cap", "tamper-exp", "tamper-sig", "tamper-nbf0", "tamper-nnc0", "misaligned",
+var defectKinds = []string{"forged", "tamper-aud", "tamper-cap", "tamper-exp", "tamper-sig", "tamper-nbf0", "tamper-nnc0", "tamper-ver", "misaligned",
 	"foreign-resource", "other-ability", "non-owner-root", "expired", "too-early", "missing-block", "near-ability"}
 
 type chainInfo struct {
@@ -107,6 +107,12 @@ func chainWorldIn(r *rand.Rand, id int, seed int64, k chainKnobs, cast *Cast, pr
 	with := owner.DID.String()
 
 	w := &World{ID: id, Kind: "chain", Cast: cast, Can: can, Inv: prefix + "inv"}
+	switch id % 6 {
+	case 1:
+		w.Rearchive = "archive"
+	case 4:
+		w.Rearchive = "format"
+	}
 	w.Ctx = CtxSpec{Authority: service, SelfIssued: true, Owners: map[string]*Prin{}, Revoked: map[string]bool{},
 		Resolvable: map[string]bool{}, ParserKind: "ed", KeyResolver: map[string]*Prin{}}
 	if info.RSA && r.Intn(4) != 0 {
@@ -137,6 +143,18 @@ func chainWorldIn(r *rand.Rand, id int, seed int64, k chainKnobs, cast *Cast, pr
 		// ... and the same policy naming the chain root: valid
 		w.Ctx.SelfIssued = false
 		w.Ctx.Owners[with] = owner
+	case 4:
+		// self-issue means the resource IS the issuer's DID: a resource that merely extends the root's DID (a DID URL of
+		// it, a longer DID that starts with it) or that the root's DID extends is somebody else's — the chain is not rooted
+		if k.ForcePolicy == "" && r.Intn(2) == 0 {
+			if r.Intn(4) == 0 {
+				with = with[:len(with)-1-r.Intn(3)]
+			} else {
+				with += pick(r, []string{"#inbox", "/uploads", "?x=1", "x", ":sub", "%20"})
+			}
+			info.Valid = false
+			info.Defects = append(info.Defects, "resource-extends-root-did@0/0")
+		}
 	}
 
 	// caveats of the claim
@@ -192,6 +210,10 @@ func chainWorldIn(r *rand.Rand, id int, seed int64, k chainKnobs, cast *Cast, pr
 				sp.Exp = nil
 			}
 		}
+		if r.Intn(5) == 0 {
+			// a token stamped a few seconds before it is used
+			sp.Nbf = now - 1 - r.Intn(4) // strictly in the past: a token is active only AFTER its not-before second (Now() <= nbf is too early)
+		}
 		if prev != "" {
 			inline := true
 			if k.Resolver && r.Intn(5) == 0 {
@@ -224,6 +246,8 @@ func chainWorldIn(r *rand.Rand, id int, seed int64, k chainKnobs, cast *Cast, pr
 				sp.Tamper = "nbf0"
 			case "tamper-nnc0":
 				sp.Tamper = "nnc0"
+			case "tamper-ver":
+				sp.Tamper = "verweird" // the spec version written in the token is part of what was signed
 			case "tamper-sig":
 				sp.Tamper = "sig"
 			case "misaligned":
